@@ -33,6 +33,7 @@ Next == /\ cfg.kind = "root"
               /\ ~(v = "cli" /\ k = "scalar")                  \* the binary uses the CPU's dispatch
               /\ ~(r > 1 /\ (p # "given" \/ sp # "rel"))        \* repetition: the plain configuration only
               /\ ~(pr = "stale" /\ (p # "given" \/ sp # "rel" \/ w # "setdir" \/ r > 1 \/ k = "scalar"))   \* stale output: the plain configuration only
+              /\ ~(s = 4 /\ (sp # "rel" \/ w # "setdir" \/ pr = "stale" \/ r > 1))   \* set 4 (an input that is a symbolic link to another input): orders, goroutines, kernels
               /\ cfg' = [kind |-> "cfg", prior |-> pr, format |-> f, set |-> s, perm |-> p, g |-> g, cwd |-> w, spell |-> sp, via |-> v, kernel |-> k, rep |-> r]
 
 \* the relevant part of a configuration
